@@ -362,11 +362,12 @@ func (s *socket) MaybeUpgrade(transport transports.Transport) {
 
 		} else if packet.UPGRADE == data.Type && probed.Load() && s.ReadyState() != "closed" {
 			socket_log.Debug("got upgrade packet - upgrading")
+			// marked upgraded before cleanup() releases the upgrading flag: a candidate arriving in
+			// between must not find both flags down (it would be entertained, and switch again)
+			s.upgraded.Store(true)
 			cleanup()
 			verifhook.At("upgrade.switching", s.id)
 			s.Transport().Discard()
-
-			s.upgraded.Store(true)
 
 			s.clearTransport()
 			s.setTransport(transport)
